@@ -4,6 +4,7 @@ import (
 	"go/ast"
 	"go/token"
 	"go/types"
+	"sort"
 	"strings"
 
 	"j5verif/checker/core"
@@ -147,4 +148,157 @@ func siblingCountChoices(r *core.Run) {
 
 func errorIface() *types.Interface {
 	return types.Universe.Lookup("error").Type().Underlying().(*types.Interface)
+}
+
+// enumNumberingAgrees (R-PROV/V2s): the compiler numbers the options of an enum
+// in two places — visitEnumNode for the descriptor, enumTypeRef for the table
+// that translates the names of in / not_in rules into numbers. Both give an
+// explicit leading UNSPECIFIED option the number 0 and count the others from
+// 1. "The others" is the point: once the zero option is taken out, the index
+// of the loop runs over the remaining list. A loop over the whole list that
+// special-cases index 0 numbers every later option one too high. The rule
+// requires, in every function of j5convert that ranges over a list of
+// Enum_Option and uses <index>+1, that a zero-option test — if there is one —
+// sits before the loop and re-slices the ranged list ([1:]) in its body.
+func enumNumberingAgrees(r *core.Run) {
+	r.Rule("R-PROV/V2s", "in every j5convert function that ranges over a list of schema Enum_Option and computes <range index>+1: the explicit-UNSPECIFIED test (a condition reading Enum_Option.Number == 0), if present, is outside the loop and its body re-slices the ranged list variable with [1:], so the index counts the remaining options; all such functions handle the zero option the same way (both re-slice, or none has the test)")
+	pk := r.P.Pkg(convRel)
+	if pk == nil {
+		r.Fatal("anchor: package %s not found", convRel)
+		return
+	}
+	info := pk.TypesInfo
+	kinds := map[string]string{}
+	var order []string
+	core.AllFuncDecls(pk, func(fd *ast.FuncDecl) {
+		if fd.Body == nil {
+			return
+		}
+		var loop *ast.RangeStmt
+		ast.Inspect(fd.Body, func(n ast.Node) bool {
+			rs, ok := n.(*ast.RangeStmt)
+			if !ok || loop != nil {
+				return true
+			}
+			sl, ok := info.TypeOf(rs.X).Underlying().(*types.Slice)
+			if !ok || !strings.HasSuffix(core.TypeStr(sl.Elem()), "schema_j5pb.Enum_Option") {
+				return true
+			}
+			key, ok := rs.Key.(*ast.Ident)
+			if !ok || key.Name == "_" {
+				return true
+			}
+			kobj := info.ObjectOf(key)
+			plusOne := false
+			ast.Inspect(rs.Body, func(m ast.Node) bool {
+				if b, ok := m.(*ast.BinaryExpr); ok && b.Op == token.ADD {
+					if id, ok := core.Unparen(b.X).(*ast.Ident); ok && info.ObjectOf(id) == kobj {
+						if k, ok := core.ConstInt(info, b.Y); ok && k == 1 {
+							plusOne = true
+						}
+					}
+				}
+				return true
+			})
+			if plusOne {
+				loop = rs
+			}
+			return true
+		})
+		if loop == nil {
+			return
+		}
+		isZeroTest := func(c ast.Expr) bool {
+			hit := false
+			ast.Inspect(c, func(m ast.Node) bool {
+				if b, ok := m.(*ast.BinaryExpr); ok && b.Op == token.EQL {
+					for _, side := range []ast.Expr{b.X, b.Y} {
+						e := core.Unparen(side)
+						if call, ok := e.(*ast.CallExpr); ok && len(call.Args) == 0 {
+							if s, ok := call.Fun.(*ast.SelectorExpr); ok && s.Sel.Name == "GetNumber" {
+								e = s
+							}
+						}
+						if s, ok := e.(*ast.SelectorExpr); ok && (s.Sel.Name == "Number" || s.Sel.Name == "GetNumber") && strings.HasSuffix(core.TypeStr(info.TypeOf(s.X)), "schema_j5pb.Enum_Option") {
+							hit = true
+						}
+					}
+				}
+				return true
+			})
+			return hit
+		}
+		kind := "none"
+		var at ast.Node = loop
+		ranged, _ := core.Unparen(loop.X).(*ast.Ident)
+		ast.Inspect(fd.Body, func(n ast.Node) bool {
+			is, ok := n.(*ast.IfStmt)
+			if !ok || !isZeroTest(is.Cond) {
+				return true
+			}
+			at = is
+			if loop.Body.Pos() <= is.Pos() && is.End() <= loop.Body.End() {
+				kind = "inloop"
+				return true
+			}
+			res := false
+			if ranged != nil {
+				ast.Inspect(is.Body, func(m ast.Node) bool {
+					if as, ok := m.(*ast.AssignStmt); ok && len(as.Lhs) == 1 && len(as.Rhs) == 1 {
+						if l, ok := as.Lhs[0].(*ast.Ident); ok && info.ObjectOf(l) == info.ObjectOf(ranged) {
+							if se, ok := core.Unparen(as.Rhs[0]).(*ast.SliceExpr); ok && se.High == nil && se.Low != nil {
+								if k, ok := core.ConstInt(info, se.Low); ok && k == 1 {
+									res = true
+								}
+							}
+						}
+					}
+					return true
+				})
+			}
+			if res && is.End() <= loop.Pos() {
+				if kind != "inloop" {
+					kind = "reslice"
+				}
+			} else if kind == "none" {
+				kind = "test without re-slice"
+			}
+			return true
+		})
+		name := core.FuncName(fd)
+		kinds[name] = kind
+		order = append(order, name)
+		o := r.Add("R-PROV/V2s", convRel+"."+name+" | zero option vs positional numbers", at.Pos(), "numbering of enum options in "+name)
+		switch kind {
+		case "none":
+			o.Auto("no explicit-UNSPECIFIED case: numbers are <index>+1 over the whole list")
+		case "reslice":
+			o.Auto("the zero option is taken off the list ([1:]) before the positional loop")
+		case "inloop":
+			o.Fail("the explicit UNSPECIFIED option is special-cased inside the loop while the other numbers are <index>+1 over the whole list: every option after an explicit UNSPECIFIED gets a number one too high (an `in` / `not_in` rule is then translated to the wrong enum values)")
+		default:
+			o.Fail("an explicit-UNSPECIFIED test precedes the positional loop but the ranged list is not re-sliced in it: the zero option is numbered twice and the others are shifted")
+		}
+	})
+	sort.Strings(order)
+	if len(order) < 2 {
+		r.Fatal("R-PROV/V2s: expected the two numbering functions (visitEnumNode, enumTypeRef), found %v", order)
+		return
+	}
+	o := r.Add("R-PROV/V2s", convRel+" | numbering functions agree", token.NoPos, "agreement of "+strings.Join(order, ", "))
+	same := true
+	for _, nme := range order[1:] {
+		if kinds[nme] != kinds[order[0]] {
+			same = false
+		}
+	}
+	if same {
+		o.Auto("all handle the zero option as: %s", kinds[order[0]])
+	} else {
+		var parts []string
+		for _, nme := range order {
+			parts = append(parts, nme+": "+kinds[nme])
+		}
+		o.Fail("the functions that number enum options disagree about an explicit UNSPECIFIED option (%s): descriptor numbers and the numbers used for in / not_in differ", strings.Join(parts, "; "))
+	}
 }
